@@ -371,7 +371,9 @@ def _frame(ex, spec, s, where):
             continue
         if isinstance(cur, Ref):
             cur = ex.read_path(s, cur.root, cur.path)
-        if not ex.is_mutable(oldv):
+        if not ex.is_mutable(oldv) and not name.startswith('self.'):
+            # rebinding a scalar parameter is local; a scalar attribute of the
+            # object is state
             continue
         if isinstance(cur, (PyTuple, PyDict)):
             continue
